@@ -10,9 +10,9 @@ grep -v '^#' sensitivity.tsv | while IFS=$'\t' read -r prop budget file expr wha
   sed -i -e "$expr" $M/$file
   if git -C $M diff --quiet; then echo "$prop | NOT-APPLIED | $what"; git -C /repo worktree remove --force $M; continue; fi
   if ! (cd $M && GOFLAGS=-mod=mod go build ./... 2>/dev/null); then echo "$prop | DOES-NOT-BUILD | $what"; git -C /repo worktree remove --force $M; continue; fi
-  out=$(VERIF_REPO=$M VERIF_BUDGET_S=$budget ./check $prop quick 2>&1); rc=$?
+  out=$(VERIF_OUTDIR=/tmp/vout.sens VERIF_REPO=$M VERIF_BUDGET_S=$budget ./check $prop quick 2>&1); rc=$?
   cl=$(echo "$out" | grep -o 'clause=[^ ]*' | sort -u | head -3 | tr '\n' ' ')
   echo "$prop | exit=$rc | $cl| $what"
   git -C /repo worktree remove --force $M
 done
-find /verif/replays -name '*.json' -delete
+rm -rf /tmp/vout.sens
